@@ -92,7 +92,16 @@ def job_exact(variant, dim, mode, norm, tier):
         out.append(prove(base + "/lemma: rhs at the conditioning location == first column of K", p.conds + cor0, z3.And(L1), T, witness_vars=wv, replay=rb, pairwise=False))
         Mk = [z3.Sum([lift(M[i, j]) * lift(kv[j, 0]) for j in range(n)]) for i in range(n)]
         L2 = [Mk[i] == (1 if i == 0 else 0) for i in range(n)]
-        out.append(prove(base + "/lemma: M k == e_0", p.conds + inv + cor0 + L1, z3.And(L2), T, witness_vars=wv, replay=rb, pairwise=False))
+        # staged (substitution of k by the first column of K inside the products, then the inverse axiom (M K)_i0 = delta_i0):
+        for i in range(n):
+            for j in range(n):
+                out.append(prove(base + f"/lemma: M[{i},{j}] k[{j}] == M[{i},{j}] K[{j},0]", [L1[j]], lift(M[i, j]) * lift(kv[j, 0]) == lift(M[i, j]) * lift(K[j, 0]), T, witness_vars=wv, replay=rb, instantiate=False, vacuity=False))
+            MKi0 = z3.Sum([lift(M[i, j]) * lift(K[j, 0]) for j in range(n)])
+            out.append(prove(base + f"/lemma: (M K)[{i},0] == delta", p.conds + inv, MKi0 == (1 if i == 0 else 0), T, witness_vars=wv, replay=rb, pairwise=False, instantiate=False, vacuity=False))
+        ga = [z3.Real(f"lem_a{j}") for j in range(n)]
+        gb = [z3.Real(f"lem_b{j}") for j in range(n)]
+        gc = z3.Real("lem_c")
+        out.append(prove(base + "/lemma: a_j == b_j, sum b == c => sum a == c  (instance: M k == e_0)", [ga[j] == gb[j] for j in range(n)] + [z3.Sum(gb) == gc], z3.Sum(ga) == gc, T, witness_vars={}, replay=rb, instantiate=False, vacuity=False))
         cz = [lift(x) for x in p.out[5]]
         L0 = z3.Sum([cz[i] * lift(M[i, j]) * lift(kv[j, 0]) for i in range(n) for j in range(n)]) == cz[0]
         # staged: (i) polynomial identity z^T M k == sum_i z_i (M k)_i, (ii) z_i (M k)_i == z_i e_0i from L2, (iii) a generic linear
